@@ -31,7 +31,34 @@ use crate::sim::{RunCtx, Scenario, SimResult, Tier, Violation};
 use crate::simchain::*;
 use crate::wallet::*;
 
-type NoteKey = (Pool, [u8; 32], usize);
+/// What a proposal input is keyed by: pool (shielded pool or transparent), creating txid, output index.
+#[derive(Clone, Copy, Debug, PartialEq, Eq, PartialOrd, Ord)]
+enum PoolK {
+    Sapling,
+    Orchard,
+    Ironwood,
+    Transparent,
+}
+impl PoolK {
+    fn name(&self) -> &'static str {
+        match self {
+            PoolK::Sapling => "sapling",
+            PoolK::Orchard => "orchard",
+            PoolK::Ironwood => "ironwood",
+            PoolK::Transparent => "transparent",
+        }
+    }
+}
+impl From<Pool> for PoolK {
+    fn from(p: Pool) -> Self {
+        match p {
+            Pool::Sapling => PoolK::Sapling,
+            Pool::Orchard => PoolK::Orchard,
+            Pool::Ironwood => PoolK::Ironwood,
+        }
+    }
+}
+type NoteKey = (PoolK, [u8; 32], usize);
 type Prop = Proposal<StandardFeeRule, ReceivedNoteId>;
 
 struct Live {
@@ -47,12 +74,12 @@ struct Live {
     tag: u8,
 }
 
-fn pool_of(n: &Note) -> Pool {
+fn pool_of(n: &Note) -> PoolK {
     match n {
-        Note::Sapling(_) => Pool::Sapling,
+        Note::Sapling(_) => PoolK::Sapling,
         Note::Orchard { pool, .. } => match pool {
-            orchard::ValuePool::Ironwood => Pool::Ironwood,
-            _ => Pool::Orchard,
+            orchard::ValuePool::Ironwood => PoolK::Ironwood,
+            _ => PoolK::Orchard,
         },
     }
 }
@@ -67,6 +94,11 @@ fn inputs_of(p: &Prop) -> Vec<(NoteKey, u64, Option<u32>, Option<u32>)> {
                 v.push(((pool_of(n.note()), t, n.output_index() as usize), n.note().value().into_u64(), n.mined_height().map(u32::from), step.anchor_height().map(u32::from)));
             }
         }
+        for u in step.transparent_inputs().iter() {
+            let mut t = [0u8; 32];
+            t.copy_from_slice(u.outpoint().hash());
+            v.push(((PoolK::Transparent, t, u.outpoint().n() as usize), u64::from(u.txout().value()), u.mined_height().map(u32::from), None));
+        }
     }
     v
 }
@@ -77,9 +109,14 @@ struct Ctl {
 }
 
 #[allow(clippy::too_many_arguments)]
-fn do_propose(conn: &mut Connection, rng: &mut ChaChaRng, s_net: zcash_protocol::local_consensus::LocalNetwork, clock: SimClock, acct: zcash_client_sqlite::AccountUuid, to: &Address, amount: u64, policy: ConfirmationsPolicy, spend: &SpendPolicy, lock: Option<LockRequest>) -> Result<Prop, String> {
+fn do_propose(conn: &mut Connection, rng: &mut ChaChaRng, s_net: zcash_protocol::local_consensus::LocalNetwork, clock: SimClock, acct: zcash_client_sqlite::AccountUuid, to: &Address, amount: u64, policy: ConfirmationsPolicy, spend: &SpendPolicy, lock: Option<LockRequest>, selector_lip: Option<LockedInputPolicy>) -> Result<Prop, String> {
     let mut d = WalletDb::from_connection(conn, s_net, clock, rng);
-    let sel = GreedyInputSelector::<WalletDb<&mut Connection, zcash_protocol::local_consensus::LocalNetwork, SimClock, &mut ChaChaRng>>::new();
+    let mut sel = GreedyInputSelector::<WalletDb<&mut Connection, zcash_protocol::local_consensus::LocalNetwork, SimClock, &mut ChaChaRng>>::new();
+    // one selector shared between shielding and transfers: its own locked-input policy is documented to govern
+    // shielding only, transfers follow the SpendPolicy's
+    if let Some(p) = selector_lip {
+        sel = sel.with_locked_input_policy(p);
+    }
     let change = SingleOutputChangeStrategy::<WalletDb<&mut Connection, zcash_protocol::local_consensus::LocalNetwork, SimClock, &mut ChaChaRng>>::new(StandardFeeRule::Zip317, None, ShieldedPool::Sapling, DustOutputPolicy::default());
     let req = zcash_client_backend::zip321::TransactionRequest::new(vec![zcash_client_backend::zip321::Payment::new(to.to_zcash_address(&s_net), Some(Zatoshis::from_u64(amount).map_err(|_| "amount")?), None, None, None, vec![]).map_err(|e| format!("{e:?}"))?]).map_err(|e| format!("{e:?}"))?;
     propose_transfer::<_, _, _, _, zcash_client_sqlite::wallet::commitment_tree::Error>(&mut d, &s_net, acct, &sel, &change, req, policy, spend, lock, None).map_err(|e| format!("{e}"))
@@ -122,6 +159,21 @@ impl Scenario for Spend {
         match s.sync_to_completion(ch, ctx, false) {
             Ok(true) => {}
             _ => return Ok(()),
+        }
+        // transparent coins the client reported, in scanned blocks (several accounts hold some, at their own addresses)
+        if ch.chance("coins", 2, 3) {
+            let base = s.cfg.base_height;
+            let tip = s.chain.tip();
+            let n = 1 + ch.below("coins.n", 5);
+            for _ in 0..n {
+                let a = ch.idx("coins.acct", s.accounts.len());
+                let h = base + 1 + ch.below("coins.h", (tip - base) as u64) as u32;
+                let value = *ch.pick("coins.value", &[300_000u64, 2_000_000, 40_000_000, 15_000]);
+                let _ = s.put_utxo(Err((a, value, h, ch.u64("coins.salt"))), ctx)?;
+            }
+            if !s.t_coins.is_empty() {
+                ctx.probe("wallet_holds_transparent_coins");
+            }
         }
         // recipients: a foreign Sapling address
         let to = {
@@ -171,6 +223,31 @@ impl Scenario for Spend {
                     if let Some((p, _)) = &lip {
                         spend = spend.with_locked_input_policy(p.clone());
                     }
+                    // transparent coins: any address of the account, or an explicit allow-list that may (wrongly) name
+                    // an address of another account of the same wallet
+                    if !s.t_coins.is_empty() && ch.chance("transparent", 1, 2) {
+                        use zcash_client_backend::data_api::wallet::input_selection::TransparentSpendPolicy;
+                        use transparent::keys::IncomingViewingKey;
+                        let tp = if ch.chance("transparent.allow_list", 1, 2) {
+                            let whose = if s.accounts.len() > 1 && ch.chance("transparent.foreign_addr", 1, 2) { (a + 1 + ch.idx("transparent.other", s.accounts.len() - 1)) % s.accounts.len() } else { a };
+                            if whose != a {
+                                ctx.probe("allow_list_names_another_accounts_address");
+                            }
+                            let addr = acct_keys(&s.net, whose as u32).ufvk.transparent().unwrap().derive_external_ivk().unwrap().default_address().0;
+                            TransparentSpendPolicy::from_one_address(addr)
+                        } else {
+                            TransparentSpendPolicy::any_account_addr()
+                        };
+                        spend = spend.with_transparent(tp);
+                        ctx.probe("transfer_may_spend_transparent");
+                    }
+                    let selector_lip = if ch.chance("selector.lip", 1, 4) {
+                        let o = owners[ch.idx("selector.lip.owner", owners.len())];
+                        let set = zcash_client_backend::data_api::wallet::input_selection::NonEmptyBTreeSet::singleton(o);
+                        Some(if ch.chance("selector.lip.prefer_locked", 1, 2) { LockedInputPolicy::PreferLocked(set) } else { LockedInputPolicy::PreferUnlocked(set) })
+                    } else {
+                        None
+                    };
                     // flow B inside A's window
                     let race_at = if race { Some(1 + ch.below("race.step", 3000)) } else { None };
                     let mut race_result: Option<Result<Prop, String>> = None;
@@ -195,13 +272,13 @@ impl Scenario for Spend {
                                     let conn2: &mut Connection = unsafe { &mut *c2p.get() };
                                     use rand_core::SeedableRng;
                                     let mut rngb = ChaChaRng::seed_from_u64(seedb);
-                                    let r = catch(|| do_propose(conn2, &mut rngb, net, clock2.clone(), acct_id, &to2, amount_b, policy, &SpendPolicy::default(), Some(LockRequest::new(owner_b, lock_b))));
+                                    let r = catch(|| do_propose(conn2, &mut rngb, net, clock2.clone(), acct_id, &to2, amount_b, policy, &SpendPolicy::default(), Some(LockRequest::new(owner_b, lock_b)), None));
                                     *slot2.lock().unwrap() = Some(r.unwrap_or_else(|m| Err(format!("PANIC {m}"))));
                                 }
                                 false
                             }));
                         }
-                        let r = catch(|| do_propose(&mut s.conn, &mut s.rng, net, clock, acct_id, &to, amount, ctl.policy, &spend, lock.map(|n| LockRequest::new(owners[f], n))));
+                        let r = catch(|| do_propose(&mut s.conn, &mut s.rng, net, clock, acct_id, &to, amount, ctl.policy, &spend, lock.map(|n| LockRequest::new(owners[f], n)), selector_lip.clone()));
                         if race_at.is_some() {
                             s.conn.progress_handler(1, None::<fn() -> bool>);
                             race_result = slot.lock().unwrap().take();
@@ -282,7 +359,7 @@ impl Scenario for Spend {
                 }
                 // ---- create + store a pending transaction (Sapling-only wallets: mock provers)
                 1 => {
-                    let cands: Vec<usize> = live.iter().enumerate().filter(|(_, l)| l.stored.is_none() && l.target == target && l.inputs.iter().all(|k| k.0 == Pool::Sapling)).map(|(i, _)| i).collect();
+                    let cands: Vec<usize> = live.iter().enumerate().filter(|(_, l)| l.stored.is_none() && l.target == target && l.inputs.iter().all(|k| k.0 == PoolK::Sapling)).map(|(i, _)| i).collect();
                     if sapling_only && !cands.is_empty() {
                         ctx.op("create_and_store");
                         let i = cands[ch.idx("which", cands.len())];
@@ -435,9 +512,10 @@ impl Scenario for Spend {
                 let mut want: BTreeSet<(String, [u8; 32], u32)> = BTreeSet::new();
                 for (k, v) in locks.iter().filter(|(_, v)| v.2 == a && v.1 >= tgt) {
                     let pt = match k.0 {
-                        Pool::Sapling => PoolType::Shielded(ShieldedPool::Sapling),
-                        Pool::Orchard => PoolType::Shielded(ShieldedPool::Orchard),
-                        Pool::Ironwood => PoolType::Shielded(ShieldedPool::Ironwood),
+                        PoolK::Sapling => PoolType::Shielded(ShieldedPool::Sapling),
+                        PoolK::Orchard => PoolType::Shielded(ShieldedPool::Orchard),
+                        PoolK::Ironwood => PoolType::Shielded(ShieldedPool::Ironwood),
+                        PoolK::Transparent => PoolType::Transparent,
                     };
                     let _ = v;
                     want.insert((format!("{pt:?}"), k.1, k.2 as u32));
@@ -481,7 +559,7 @@ impl Scenario for Spend {
         ]
     }
     fn expected_probes(&self) -> Vec<&'static str> {
-        vec!["lock_race_lost", "lock_expired", "pending_tx_stored", "pending_tx_expired", "race_b_succeeded", "pending_tx_without_expiry"]
+        vec!["lock_race_lost", "lock_expired", "pending_tx_stored", "pending_tx_expired", "race_b_succeeded", "pending_tx_without_expiry", "wallet_holds_transparent_coins", "transparent_input_selected", "allow_list_names_another_accounts_address"]
     }
     fn fault_kinds(&self) -> Vec<&'static str> {
         vec!["flow_interleaved@vm_step", "interleaved_flow_refused_busy"]
@@ -514,13 +592,48 @@ impl Spend {
     fn check_proposal(&self, s: &WalletSim, ctx: &mut RunCtx, p: &Prop, acct: usize, owner: LockOwner, admitted_owner: Option<LockOwner>, live: &[Live], locks: &BTreeMap<NoteKey, (LockOwner, u32, usize)>, ctl: &Ctl, target: u32, _locked: bool) -> SimResult {
         ctx.oracle("proposal_inputs_spendable");
         let (notes, spent) = s.chain.ledger();
-        let by_row: BTreeMap<NoteKey, &OutTruth> = notes.values().map(|n| ((n.pool, n.txid, n.idx), n)).collect();
+        let by_row: BTreeMap<NoteKey, &OutTruth> = notes.values().map(|n| ((PoolK::from(n.pool), n.txid, n.idx), n)).collect();
         let ins = inputs_of(p);
         let mut seen = BTreeSet::new();
         for (k, value, mined, anchor) in &ins {
-            let label = format!("{} note {}:{}", k.0.name(), hex::encode(&k.1[..4]), k.2);
+            let label = format!("{} {} {}:{}", k.0.name(), if k.0 == PoolK::Transparent { "coin" } else { "note" }, hex::encode(&k.1[..4]), k.2);
             if !seen.insert(*k) {
                 return ctx.report(Violation::new("no_input_selected_twice", format!("{label} appears twice in one proposal")));
+            }
+            if k.0 == PoolK::Transparent {
+                // a coin the client reported: of the requested account, of that value, mined in a scanned-range block at
+                // or below the tip, not spent by a live pending transaction, not under a foreign lock
+                let Some(c) = s.t_coins.iter().find(|c| c.txid == k.1 && c.idx as usize == k.2) else {
+                    return ctx.report(Violation::new("input_is_a_wallet_note_on_chain", format!("{label} (value {value}) is not a coin the wallet was told about")));
+                };
+                if c.acct != acct {
+                    return ctx.report(Violation::new("input_belongs_to_requested_account", format!("{label} belongs to account {}, the proposal was requested for account {acct}", c.acct)));
+                }
+                if c.value != *value {
+                    return ctx.report(Violation::new("input_value_matches_chain", format!("{label}: proposal says {value}, the coin is worth {}", c.value)));
+                }
+                if c.state != TState::Mined || !c.on_chain || c.height >= target {
+                    return ctx.report(Violation::new("input_has_required_confirmations", format!("{label} is {:?} at height {} (target {target})", c.state, c.height)));
+                }
+                if *mined != Some(c.height) {
+                    return ctx.report(Violation::new("input_mined_height_matches_chain", format!("{label}: proposal says mined at {mined:?}, the coin was mined at {}", c.height)));
+                }
+                for l in live {
+                    if l.inputs.contains(k) {
+                        if let Some((_, exp)) = l.stored {
+                            if exp >= target {
+                                return ctx.report(Violation::new("input_not_spent_by_pending_transaction", format!("{label} is spent by a stored pending transaction that expires at {exp} (target {target})")));
+                            }
+                        }
+                    }
+                }
+                if let Some((o, e, _)) = locks.get(k) {
+                    if *e >= target && *o != owner && Some(*o) != admitted_owner {
+                        return ctx.report(Violation::new("input_not_locked_by_another_owner", format!("{label} is locked until {e} by another owner (target {target})")));
+                    }
+                }
+                ctx.probe("transparent_input_selected");
+                continue;
             }
             let Some(n) = by_row.get(k) else {
                 return ctx.report(Violation::new("input_is_a_wallet_note_on_chain", format!("{label} (value {value}) is not a note of the current chain")));
